@@ -159,6 +159,8 @@ func c18Run(c core.Case) *core.Result {
 			}
 			if rec.RefID < 0 {
 				rec.Pos = -1
+			} else if rng.Intn(12) == 0 {
+				rec.Pos = -1 // on a reference but without a position: first of its reference
 			}
 			in.recs = append(in.recs, rec)
 		}
